@@ -12,7 +12,6 @@ package lifecycle
 
 import (
 	"context"
-	"errors"
 	"fmt"
 	"os"
 	"sort"
@@ -49,6 +48,11 @@ import (
 type C06Step struct {
 	Op  string `json:"op"`
 	Idx string `json:"idx,omitempty"`
+	// veto: the form of the error the handler returns (see formErr): "" / plain, status with
+	// ErrCode 1..16, wrap / bare with ErrSentinel
+	ErrForm     string `json:"err_form,omitempty"`
+	ErrCode     int    `json:"err_code,omitempty"`
+	ErrSentinel string `json:"err_sentinel,omitempty"`
 	// reg: the name the plugin registers under ("" = p<ordinal>); any non-empty string is a
 	// legal name, among them look-alikes of "<index>-<name>"
 	Name    string    `json:"name,omitempty"`
@@ -190,6 +194,18 @@ func (g *c06GenState) veto(t *rapid.T) C06Step {
 		s.Event = rapid.Int32Range(1, 13).Draw(t, "veto_event_any")
 	}
 	g.vetoEvent = s.Event
+	switch k := rapid.IntRange(0, 9).Draw(t, "veto_form"); {
+	case k < 3:
+	case k < 7:
+		s.ErrForm = "status"
+		s.ErrCode = rapid.SampledFrom([]int{12, 1, 2, 3, 4, 5, 6, 7, 8, 9, 10, 11, 12, 13, 14, 15, 16}).Draw(t, "veto_code")
+	case k < 9:
+		s.ErrForm = "wrap"
+		s.ErrSentinel = rapid.SampledFrom(c19SentinelNames).Draw(t, "veto_sentinel")
+	default:
+		s.ErrForm = "bare"
+		s.ErrSentinel = rapid.SampledFrom(c19SentinelNames).Draw(t, "veto_sentinel")
+	}
 	return s
 }
 
@@ -336,7 +352,9 @@ type c06Entry struct {
 	Plugin int    `json:"plugin"`
 	Event  int32  `json:"event"`
 	Tag    string `json:"tag"`
-	Veto   string `json:"veto,omitempty"`
+	Veto   string `json:"veto,omitempty"`      // the handler returned an error; this is its label
+	Want   string `json:"veto_want,omitempty"` // what the caller's error must contain
+	Form   string `json:"veto_form,omitempty"`
 	Slow   bool   `json:"slow,omitempty"` // this invocation did not answer within the request timeout
 }
 
@@ -401,7 +419,7 @@ type c06Exec struct {
 
 	mu       sync.Mutex
 	log      []c06Entry
-	armed    map[[2]int]string
+	armed    map[[2]int]c06Veto
 	infra    string
 	restarts int
 	slow     map[[2]int]bool // armed: the next invocation does not answer in time
@@ -417,7 +435,7 @@ func newC06Exec(c C06Case) (*c06Exec, error) {
 	if err != nil {
 		return nil, err
 	}
-	return &c06Exec{rt: rt, caseNo: c06CaseCtr.Add(1), spin: time.Duration(c.SpinUs) * time.Microsecond, armed: map[[2]int]string{},
+	return &c06Exec{rt: rt, caseNo: c06CaseCtr.Add(1), spin: time.Duration(c.SpinUs) * time.Microsecond, armed: map[[2]int]c06Veto{},
 		slow: map[[2]int]bool{}, slowHit: map[[2]int]bool{}, done: make(chan struct{})}, nil
 }
 
@@ -434,20 +452,31 @@ func (x *c06Exec) close() {
 	x.rt.Stop()
 }
 
+// c06Veto is an armed one-shot handler error.
+type c06Veto struct {
+	text, form, sentinel string
+	code                 int
+}
+
 // enter is called first thing by every handler.
 func (x *c06Exec) enter(ord int, e api.Event, tag string) error {
 	x.mu.Lock()
 	k := [2]int{ord, int(e)}
-	text := x.armed[k]
-	if text != "" {
+	v, vetoing := x.armed[k]
+	var verr error
+	var text, want, form string
+	if vetoing {
 		delete(x.armed, k)
+		text = v.text
+		verr, want = formErr(v.form, v.code, v.sentinel, v.text)
+		form = formClass(v.form, v.code, v.sentinel)
 	}
 	hang := x.slow[k]
 	if hang {
 		delete(x.slow, k)
 		x.slowHit[k] = true
 	}
-	x.log = append(x.log, c06Entry{Seq: x.ctr.Add(1), Plugin: ord, Event: int32(e), Tag: tag, Veto: text, Slow: hang})
+	x.log = append(x.log, c06Entry{Seq: x.ctr.Add(1), Plugin: ord, Event: int32(e), Tag: tag, Veto: text, Want: want, Form: form, Slow: hang})
 	x.mu.Unlock()
 	if hang { // no answer within the request timeout; a normal (empty-handed) return long after
 		select {
@@ -459,8 +488,8 @@ func (x *c06Exec) enter(ord int, e api.Event, tag string) error {
 	if x.spin > 0 && hashOdd(tag, ord) {
 		time.Sleep(x.spin)
 	}
-	if text != "" {
-		return errors.New(text)
+	if vetoing {
+		return verr
 	}
 	return nil
 }
@@ -579,7 +608,8 @@ func (x *c06Exec) veto(s C06Step) {
 	}
 	x.mu.Lock()
 	x.vetoN++
-	x.armed[[2]int{p.Ord, int(s.Event)}] = fmt.Sprintf("veto#%d by %s on %s", x.vetoN, p.Name, evName(s.Event))
+	x.armed[[2]int{p.Ord, int(s.Event)}] = c06Veto{text: fmt.Sprintf("veto#%d by %s on %s", x.vetoN, p.Name, evName(s.Event)),
+		form: s.ErrForm, code: s.ErrCode, sentinel: s.ErrSentinel}
 	x.mu.Unlock()
 }
 
@@ -871,11 +901,17 @@ func judgeC06(c C06Case, h *c06Hist) ev.Outcome {
 	}
 
 	nontrivial := false
+	vetoedBy := map[int]bool{}
 	vetoes, maxInvoked := 0, 0
 	for ri, r := range h.Reqs {
 		es := byTag[r.Tag]
 		if len(es) > maxInvoked {
 			maxInvoked = len(es)
+		}
+		for _, e := range es {
+			if vetoedBy[e.Plugin] { // a plugin that vetoed an earlier request is still being invoked
+				classes["vetoing-plugin-invoked-again"] = true
+			}
 		}
 		seen := map[int]bool{}
 		vetoAt, vetoUncertain := -1, false
@@ -971,9 +1007,11 @@ func judgeC06(c C06Case, h *c06Hist) ev.Outcome {
 		// what the caller got
 		if vetoAt >= 0 {
 			vetoes++
+			vetoedBy[es[vetoAt].Plugin] = true
 			v := es[vetoAt]
-			if !strings.Contains(r.Err, v.Veto) {
-				return fail("%s %s was vetoed by plugin %s with %q but its caller received error %q", evName(r.Event), r.Tag, h.Plugins[v.Plugin].Name, v.Veto, r.Err)
+			classes["veto:"+v.Form] = true
+			if !strings.Contains(r.Err, v.Want) || r.Err == "" {
+				return fail("%s %s was vetoed by plugin %s with an error of form %s (%s), text %q, but its caller received error %q", evName(r.Event), r.Tag, h.Plugins[v.Plugin].Name, v.Form, v.Veto, v.Want, r.Err)
 			}
 		}
 		if r.Err == "" {
